@@ -194,6 +194,10 @@ func snapScripts() []PSeq {
 		{ID: "s1", Mode: "snap", Sync: "no", Ops: []POp{{Conn: -1, Cmd: h("rpush", "l1", "x")}, {Conn: -1, Cmd: h("hset", "h1", "f", "1")}, {Conn: -1, Cmd: h("sadd", "s1", "m")}, {Conn: -1, Cmd: h("set", "n", "5")}, {Conn: -1, Cmd: h("@snapshot")}}},
 		{ID: "s2", Mode: "snap", Sync: "no", RestoreAdv: 5000, Ops: []POp{{Conn: -1, Cmd: h("set", "k1", "a", "px", "1000")}, {Conn: -1, Cmd: h("set", "k2", "b", "px", "100000")}, {Conn: -1, Cmd: h("@snapshot")}}},
 		{ID: "s3", Mode: "snap", Sync: "no", Ops: []POp{{Conn: -1, Cmd: h("set", "k1", "a")}, {Conn: -1, Cmd: h("@snapshot")}, {Conn: -1, Adv: 10, Cmd: h("@snapshot")}, {Conn: -1, Adv: 10, Cmd: h("set", "k1", "b")}, {Conn: -1, Adv: 10, Cmd: h("@snapshot")}}},
+		{ID: "s5", Mode: "snap", Sync: "no", Ops: []POp{{Conn: -1, Cmd: h("set", "a", "x", "px", "100")}, {Conn: -1, Cmd: h("set", "b", "y")}, {Conn: 0, Cmd: h("select", "1")}, {Conn: 0, Cmd: h("set", "a", "z")}, {Conn: 0, Cmd: h("set", "b", "w", "px", "100")},
+			{Conn: -1, Adv: 200, Cmd: h("@snapshot")}, {Conn: -1, Adv: 10, Cmd: h("set", "c", "1")}}},
+		{ID: "s6", Mode: "snap", Sync: "no", Ops: []POp{{Conn: -1, Cmd: h("set", "k1", "a")}, {Conn: -1, Cmd: h("@snapshot")}, {Conn: -1, Adv: 10, Cmd: h("set", "k1", "b")}, {Conn: -1, Adv: 10, Cmd: h("@snapshot-blocked")}, {Conn: -1, Adv: 10, Cmd: h("set", "k2", "c")}, {Conn: -1, Adv: 10, Cmd: h("@snapshot")}}},
+		{ID: "s7", Mode: "snap", Sync: "no", Ops: []POp{{Conn: -1, Cmd: h("set", "k1", "a")}, {Conn: -1, Cmd: h("@snapshot-blocked")}, {Conn: -1, Adv: 10, Cmd: h("@snapshot")}}},
 		{ID: "s4", Mode: "snap", Sync: "no", Ops: []POp{{Conn: 0, Cmd: h("select", "1")}, {Conn: 0, Cmd: h("set", "k1", "db1")}, {Conn: -1, Cmd: h("set", "k1", "db0")}, {Conn: -1, Cmd: h("@snapshot")}}},
 	}
 }
@@ -224,8 +228,14 @@ func genSnapSeq(g *Gen, id string, n int, tier string) PSeq {
 		switch {
 		case g.Chance(0.15):
 			op.Cmd = HexCmd([]string{"@snapshot"})
+			if g.Chance(0.15) {
+				op.Cmd = HexCmd([]string{"@snapshot-blocked"})
+			}
 		case !plain && tcp && g.Chance(0.06):
 			op.Cmd = HexCmd([]string{"select", g.Pick([]string{"0", "1", "1", "2", "10"})})
+		case !plain && g.Chance(0.2):
+			// same key names on several databases, short deadlines: expiry must be judged per database
+			op.Cmd = HexCmd([]string{"set", g.Pick([]string{"a", "b"}), g.Pick([]string{"x", "y"}), "px", g.Pick([]string{"100", "400", "2000"})})
 		case plain:
 			op.Cmd = HexCmd(g.plainString())
 		default:
